@@ -55,7 +55,7 @@ func newMachine(st *Stats) *machine {
 	return m
 }
 
-func (m *machine) list(sel int) *mnode   { return m.h.lists[sel%len(m.h.lists)] }
+func (m *machine) list(sel int) *mnode { return m.h.lists[sel%len(m.h.lists)] }
 
 // target of a mutating list step: the list op.T selects or, in one step of four once a SubList or Concat
 // has happened, the receiver or the result of the most recent derivation (an operation on one of the two
